@@ -295,20 +295,37 @@ def answersBeforeRelease : List Eff → Bool
   | .finishSucc :: _ => false
   | _ :: rest => answersBeforeRelease rest
 
-/-- Full statement of the "answered" clause (NOT proved): a settled running daemon shows an answer
-(Done / Error), or a client's fresh ReloadSend, in the progress file — never a left-over
-`Processing` or busy report.  The busy half is `settled_is_clean`; what is missing is the dynamic
-invariant "while the file says Processing, the holder of the request still has its answer ahead",
-needed to exclude a left-over `Processing` under all interleavings (the harness measures it:
-counter `settled_but_cli_refuses`, 0 on every settled state it reaches). -/
-def answered_full : Prop :=
-  ∀ s, Reachable s → s.exited = false → quiescent s = true →
-    s.progress.cliAccepts = true ∨ s.progress = .send
+/-- **Every accepted request is answered**: a settled running daemon shows an answer (Done / Error)
+— or a client's fresh ReloadSend — in the progress file; never a left-over `Processing` and never
+a left-over busy report.  Proved from the dynamic invariant `Inv.proc` ("while the file says
+Processing, the worker still has its Error write or the hand-off ahead, or the main loop still has
+its Done/Error write ahead, or the hand-off is waiting for the main loop") together with the busy
+coverage invariant; it holds under all interleavings, including busy reports written by refusals
+(4876faa) and by the serve-ready wait (926f7bd) on top of `Processing`. -/
+theorem answered_full {s : St} (hr : Reachable s) (hx : s.exited = false) (hq : quiescent s = true) :
+    s.progress.cliAccepts = true ∨ s.progress = .send := by
+  have hI := reachable_inv hr hx
+  have hi := idle_of_quiescent hq hx
+  have hb := (clean_of_idle hI hi).2.2.1
+  have hp := not_processing_of_idle hI hi
+  cases h : s.progress <;> simp [h, Prog.isBusy, Prog.isProcessing, Prog.cliAccepts] at hb hp ⊢
 
-/-- **Every outcome is answered (path-level part)**: every path of the worker starts by writing
+/-- a reload that succeeded and whose old generation has retired, fully settled: Done "OK". -/
+def exSucceededSettled : List Act :=
+  exAccepted ++ [.wStart 4] ++ List.replicate 12 .stepW ++ [.wake 5] ++ List.replicate 5 .stepM ++
+  [.closeG, .gStore, .gEnd, .gRead]
+
+example : ∃ s, Reachable s ∧ s.exited = false ∧ quiescent s = true ∧ s.progress = .done :=
+  ⟨_, reachable_of_run (acts := exSucceededSettled) rfl, rfl, by decide, rfl⟩
+
+/-- while a reload is being processed the file does say `Processing` (the invariant is not vacuous). -/
+example : ∃ s, Reachable s ∧ s.exited = false ∧ s.progress = .processing ∧ anyAnsW s.w = true :=
+  ⟨_, reachable_of_run (acts := exAccepted ++ [.wStart 4, .stepW, .stepW, .stepW]) rfl, rfl, rfl, rfl⟩
+
+/-- **Every outcome is answered (path-level corollary)**: every path of the worker starts by writing
 `Processing`, and every path (worker or run-state handler) that releases the request has written
 its answer (Error, or Done/Error according to the recorded reload error) before it does so. -/
-theorem answered_partial :
+theorem answer_written_before_release :
     (∀ p ∈ workerPaths, (p.take 3).contains (.setProg .processing) = true ∧ answersBeforeRelease p = true) ∧
     (∀ p ∈ handlerPaths, answersBeforeRelease p.effs = true) := by
   decide
